@@ -47,6 +47,8 @@ func genC16(seed uint64, idx int, tier string) interface{} {
 	switch {
 	case r.Bool(0.03):
 		in = GenLongInput(ir, v)
+	case r.Bool(0.2):
+		in = GenTargetedInput(ir, rc, fresh, r.Range(2, 6))
 	case tier == "thorough" && r.Bool(0.3):
 		in = GenInput(ir, v, 16)
 	default:
